@@ -446,7 +446,7 @@ Theorem user_exists_sound db fs vb domain local :
   (rc o = 0 -> ~ mailbox fs vb local) /\
   (rc o < 0 -> io_error fs vb local).
 Proof.
-  intros DF. cbv zeta. unfold user_exists. destruct (refused local) eqn:R.
+  intros DF. cbv zeta. unfold user_exists, user_exists_with. destruct (refused local) eqn:R.
   - simpl. apply refused_true in R. split; [lia|]. split; [|lia]. intros _ [C _]. contradiction.
   - apply refused_false in R. rewrite vget_dir_eq. destruct (domain_found_state _ _ DF) as [G S]. rewrite G, S.
     cbn [dom_errno]. pose proof (in_domain_sound fs vb local) as [A [B C]]. split; [|split].
@@ -476,7 +476,7 @@ Theorem user_exists_confined db fs vb domain local :
   confined (probes o) /\
   (forall n, userdir o = Some n -> n = local /\ component local /\ fs local = EDir).
 Proof.
-  cbv zeta. unfold user_exists, confined. destruct (refused local) eqn:R.
+  cbv zeta. unfold user_exists, user_exists_with, confined. destruct (refused local) eqn:R.
   { simpl. split; [constructor|discriminate]. }
   apply refused_false in R.
   destruct (vget_dir db domain) as [e|[d|]]; try (simpl; split; [constructor|discriminate]).
@@ -666,7 +666,7 @@ Proof.
   assert (CO : (conf_of (user_exists db fs vb domain local) <=? 1)%N = true).
   { unfold conf_of. destruct (userdir _); reflexivity. }
   rewrite CO. rewrite andb_true_l.
-  unfold user_exists in *. destruct (refused local) eqn:R.
+  unfold user_exists, user_exists_with in *. destruct (refused local) eqn:R.
   { apply refused_true in R. destruct (component_b local) eqn:C; [apply component_b_spec in C; contradiction|]. simpl negb.
     match goal with |- (if true then ?B else _) = true => change (B = true) end. reflexivity. }
   apply refused_false in R. pose proof R as C. apply component_b_spec in C. rewrite C. simpl negb.
@@ -752,7 +752,7 @@ Proof.
   assert (CO : (conf_of (user_exists db fs vb d l) <=? 1)%N = true).
   { unfold conf_of. destruct (userdir _); reflexivity. }
   rewrite CO. rewrite andb_true_l. clear CF UD CO.
-  unfold user_exists. destruct (refused l) eqn:R.
+  unfold user_exists, user_exists_with. destruct (refused l) eqn:R.
   { apply refused_true in R. destruct (component_b l) eqn:C; [apply component_b_spec in C; contradiction|].
     simpl negb. match goal with |- (if true then ?B else _) = true => change (B = true) end.
     cbn [rc probes]. change (0 <? 0) with false. change (0 =? 0) with true. cbn [rcpt_obs fst snd nil_b].
